@@ -35,6 +35,8 @@ pub fn library() -> Vec<(&'static str, Option<Vec<Stmt>>)> {
         // reads the pseudo-members the path finder answers one level down; as *top-level* names they are
         // ordinary names that nobody defined (whatever number of arguments the scope holds)
         ("p_pseudo", Some(wrap("S", probes(&["size", "first", "last"])))),
+        // a name whose byte order and case-insensitive order differ from the others' (stores that keep names sorted)
+        ("Q_upper", Some(wrap("Q", pr()))),
         ("p_assign", Some(wrap("A", assign))),
         ("p_capture", Some(wrap("C", capture))),
         ("p_incr", Some(wrap("I", vec![Stmt::Incr("c".into())]))),
